@@ -1184,6 +1184,7 @@ impl Prop for C07 {
             },
         };
         let mut seq = gen_seq_case(rng, size, None);
+        crate::gen::maybe_reverse_empty(rng, &mut seq);
         if tier == Tier::Quick && matches!(size, Size::Huge(_)) && seq.alg == Alg::Lcs {
             // the quadratic table of LCS at this size belongs to the thorough tier
             seq.alg = Alg::Myers;
